@@ -13,6 +13,12 @@ import (
 )
 
 var errChunked = errors.New("unbounded redis message")
+
+const (
+	maxPreallocBytes = int64(1 << 20) // max bytes allocated ahead of receiving them for a single blob string
+	maxPreallocMsgs  = int64(1 << 12) // max elements allocated ahead of receiving them for a single aggregate
+)
+
 var errOldNull = errors.New("RESP2 null")
 
 const (
@@ -98,7 +104,10 @@ func readBlobString(i *bufio.Reader) (m RedisMessage, err error) {
 				m.setString(sb.String())
 				return m, nil
 			}
-			sb.Grow(int(length))
+			if length < 0 {
+				return RedisMessage{}, errors.New(unexpectedNegLength)
+			}
+			sb.Grow(int(min(length, maxPreallocBytes)))
 			if _, err = io.CopyN(&sb, i, length); err != nil {
 				return RedisMessage{}, err
 			}
@@ -147,6 +156,9 @@ func readArray(i *bufio.Reader) (m RedisMessage, err error) {
 
 func readMap(i *bufio.Reader) (m RedisMessage, err error) {
 	length, err := readI(i)
+	if err == nil && length > math.MaxInt64/2 {
+		err = errors.New(unexpectedNegLength)
+	}
 	if err == nil {
 		m.array, m.intlen, err = readA(i, length*2)
 	} else if err == errChunked {
@@ -211,9 +223,21 @@ func readB(i *bufio.Reader) (*byte, int64, error) {
 	if length == -1 {
 		return nil, 0, errOldNull
 	}
-	bs := make([]byte, length)
+	if length < 0 {
+		return nil, 0, errors.New(unexpectedNegLength)
+	}
+	// do not trust the declared length blindly: allocate progressively for large blobs,
+	// so that a peer can't make us allocate memory far beyond the bytes it actually sent.
+	bs := make([]byte, min(length, maxPreallocBytes))
 	if _, err = io.ReadFull(i, bs); err != nil {
 		return nil, 0, err
+	}
+	for int64(len(bs)) < length {
+		n := len(bs)
+		bs = append(bs, make([]byte, min(int64(n), length-int64(n)))...)
+		if _, err = io.ReadFull(i, bs[n:]); err != nil {
+			return nil, 0, err
+		}
 	}
 	if _, err = i.Discard(2); err != nil {
 		return nil, 0, err
@@ -236,13 +260,17 @@ func readE(i *bufio.Reader) (*RedisMessage, int64, error) {
 }
 
 func readA(i *bufio.Reader, length int64) (*RedisMessage, int64, error) {
-	var err error
-
-	msgs := make([]RedisMessage, length)
-	for n := range length {
-		if msgs[n], err = readNextMessage(i); err != nil {
+	if length < 0 {
+		return nil, 0, errors.New(unexpectedNegLength)
+	}
+	// do not trust the declared length blindly: cap the preallocation and grow as elements arrive.
+	msgs := make([]RedisMessage, 0, min(length, maxPreallocMsgs))
+	for range length {
+		m, err := readNextMessage(i)
+		if err != nil {
 			return nil, 0, err
 		}
+		msgs = append(msgs, m)
 	}
 	return unsafe.SliceData(msgs), length, nil
 }
@@ -386,7 +414,8 @@ func flushCmd(o *bufio.Writer, cmd []string) (err error) {
 }
 
 const (
-	unexpectedNoCRLF   = "received unexpected simple string message ending without CRLF"
-	unexpectedNumByte  = "received unexpected number byte: "
-	unknownMessageType = "received unknown message type: "
+	unexpectedNoCRLF    = "received unexpected simple string message ending without CRLF"
+	unexpectedNegLength = "received unexpected negative or overflowed length"
+	unexpectedNumByte   = "received unexpected number byte: "
+	unknownMessageType  = "received unknown message type: "
 )
